@@ -65,8 +65,8 @@ static void h_tagged_fixed(const vcase *c) {
     out_str("guard", gbuf_guard(&g));
     gbuf q = gbuf_new(16, align);
     varintTaggedPut64FixedWidthQuick_(q.p, x, width);
-    out_hex("putq", q.p, width <= 16 ? width : 16);
-    out_str("frameq", frame_after(&q, width <= 9 ? width : 0));
+    out_hex("putq", q.p, (width >= 1 && width <= 9) ? width : 0);
+    out_str("frameq", frame_after(&q, (width >= 1 && width <= 9) ? width : 0));
     out_str("guardq", gbuf_guard(&q));
     if (w >= 1 && w <= 9) {
         gpage in = gpage_new(g.p, w);
